@@ -75,6 +75,12 @@ impl<K> EntryInfo<K> {
         self.policy_weight.store(size, Ordering::Release);
     }
 
+    /// Sets the last accessed time unless it is already newer than `timestamp`.
+    #[inline]
+    pub(crate) fn advance_last_accessed(&self, timestamp: Instant) {
+        self.last_accessed.advance_instant(timestamp);
+    }
+
     #[inline]
     pub(crate) fn access_order_q_node(&self) -> Option<KeyDeqNodeAo<K>> {
         self.nodes
